@@ -50,6 +50,12 @@ func main() {
 			fmt.Println(t.ID, pv.ByTrace[t.ID], execfam.TraceString(t.Evs))
 		}
 		fmt.Println("tlc wall", pv.Wall, "states", pv.States)
+		cfg := "ExecTrace.cfg"
+		if os.Getenv("DESIGN") != "" {
+			cfg = "ExecTraceDesign.cfg"
+		}
+		mv := execfam.ValidateModel([]*execfam.Program{&p}, traces, cfg)
+		fmt.Printf("model: accepted %d rejected %v states %d wall %v runs %d err %v\n", mv.Accepted, mv.Rejected, mv.States, mv.Wall, mv.Runs, mv.Err)
 		return
 	case "dbg-exec":
 		b, err := os.ReadFile(os.Args[2])
